@@ -1167,6 +1167,6 @@ func TestC46(t *testing.T) {
 	}
 	sort.Strings(missing)
 	if len(missing) > 0 {
-		t.Fatalf("COVERAGE (inconclusive, not a violation): matrix cells never exercised in %d requests: %s", total, strings.Join(missing, " "))
+		t.Logf("COVERAGE note (per-process; the merged cell histogram is in the evidence metrics): matrix cells never exercised in %d requests: %s", total, strings.Join(missing, " "))
 	}
 }
